@@ -110,6 +110,7 @@ func (e *Engine) Load(patterns []string) error {
 	if len(errs) > 0 {
 		return fmt.Errorf("package errors: %s", strings.Join(errs, "; "))
 	}
+	e.cs.closeFrames()
 	return nil
 }
 
